@@ -91,6 +91,35 @@ var checkC06v3 = register("C06/v3fields", func(f fieldCase3) string {
 	return ""
 })
 
+// reassignCase3: one object holds Prev's fields and is queried at every level, then it is
+// assigned Cur's fields; severity must still be the band of the score the object reports then.
+type reassignCase3 struct {
+	Prev fieldCase3 `json:"fields_before"`
+	Cur  fieldCase3 `json:"fields_assigned"`
+}
+
+var checkC06v3Re = register("C06/v3reassigned", func(r reassignCase3) string {
+	if !inRange3(r.Prev) || !inRange3(r.Cur) {
+		return ""
+	}
+	e := build3(r.Prev)
+	e.Base.Score()
+	e.Base.Severity()
+	e.Temporal.Score()
+	e.Temporal.Severity()
+	e.Score()
+	e.Severity()
+	bind.SetV3Base(e.Base, r.Cur.Ver, r.Cur.B)
+	bind.SetV3Temporal(e.Temporal, r.Cur.T)
+	bind.SetV3Env(e, r.Cur.E)
+	for _, m := range []string{grid3("base", e.Base.Score(), e.Base.Severity()), grid3("temporal", e.Temporal.Score(), e.Temporal.Severity()), grid3("environmental", e.Score(), e.Severity())} {
+		if m != "" {
+			return "on an object queried before its fields were assigned: " + m
+		}
+	}
+	return ""
+})
+
 func grid2(level string, score float64, sev m2.Severity, negOK spec.TSet) string {
 	k, grid := tenths(score)
 	if !grid || !oneDecimal(score) {
@@ -199,7 +228,7 @@ func isEdge(k int) bool {
 func TestC06(t *testing.T) {
 	c := begin(t, "C06")
 	defer c.end()
-	c.rec.F.Rule = "v3: objects built by field assignment — every version x base x temporal combination (518,400; base and temporal level) and the effective-metric environmental domain of C03 layer 1 (quick: 331,776 x 4 temporal settings; thorough: all 33,177,600) plus a seeded pseudo-random (bijective) sample of the version x base x environmental product (quick 2,000,000, thorough 20,000,000); v2: objects never decoded (constructor of each level plus field assignment, all 729 base combinations x 4 hash-chosen optional settings), base x temporal (73,629) and base x environmental sweep with the temporal group absent (quick, 1,399,680) or the complete 141 million product (thorough). At every level of every object: score == k/10 exactly for an integer 0<=k<=100 (one decimal digit when printed), Severity() == rating band of k by integer comparison; v3 report score fields on a 1/4096 subsample. Non-trivial = an observation whose score lies on a band edge (0.0, 0.1, 3.9, 4.0, 6.9, 7.0, 8.9, 9.0, 10.0); enumerated points are distinct by construction."
+	c.rec.F.Rule = "v3: objects built by field assignment — every version x base x temporal combination (518,400; base and temporal level) and the effective-metric environmental domain of C03 layer 1 (quick: 331,776 x 4 temporal settings; thorough: all 33,177,600) plus a seeded pseudo-random (bijective) sample of the version x base x environmental product (quick 2,000,000, thorough 20,000,000); v2: objects never decoded (constructor of each level plus field assignment, all 729 base combinations x 4 hash-chosen optional settings), base x temporal (73,629) and base x environmental sweep with the temporal group absent (quick, 1,399,680) or the complete 141 million product (thorough). At every level of every object: score == k/10 exactly for an integer 0<=k<=100 (one decimal digit when printed), Severity() == rating band of k by integer comparison; v3 report score fields on a 1/4096 subsample. The v3 sweeps re-use one object (assign, query all levels, assign, query ...); a mismatch there is re-examined on a fresh object and, if that does not reproduce it, as the two-step case 'previous fields held and queried, these fields assigned, queried'. Non-trivial = an observation whose score lies on a band edge (0.0, 0.1, 3.9, 4.0, 6.9, 7.0, 8.9, 9.0, 10.0); enumerated points are distinct by construction."
 	c.rec.F.Assumptions = []string{"the v2 environmental exception is decided by the exact model of C05 (negative equation admits that negative tenth or 0)", "-0.0 is accepted as 0.0 (v2 returns it for zero-impact vectors)"}
 	var att attained
 	var evals, nt int64
@@ -217,6 +246,15 @@ func TestC06(t *testing.T) {
 		}
 		return true
 	}
+	// a mismatch seen on the re-used sweep object is re-examined on a fresh object and, if that
+	// does not reproduce it, as "hold the previous fields, query, assign these, query"
+	var prev3 fieldCase3
+	recheck3 := func(f fieldCase3) {
+		evalEnum(c, "v3fields", f.withText(), checkC06v3, &nviol)
+		if nviol == 0 {
+			evalEnum(c, "v3reassigned", reassignCase3{Prev: prev3.withText(), Cur: f.withText()}, checkC06v3Re, &nviol)
+		}
+	}
 	// ---- v3 base x temporal ---------------------------------------------------------------
 	e := m3.NewEnvironmental()
 	forEachV3Base(func(i int, x spec.V3Idx) {
@@ -230,10 +268,15 @@ func TestC06(t *testing.T) {
 				for rc := 0; rc < 4; rc++ {
 					bind.SetV3Temporal(e.Temporal, [3]int{te, rl, rc})
 					okAll = obs3(1, e.Temporal.Score(), e.Temporal.Severity()) && okAll
-					if !okAll || (i*100+te*20+rl*4+rc)%4096 == 0 {
-						evalEnum(c, "v3fields", fieldCase3{Ver: x.Ver, B: x.B, T: [3]int{te, rl, rc}}.withText(), checkC06v3, &nviol)
+					okAll = obs3(2, e.Score(), e.Severity()) && okAll
+					cur := fieldCase3{Ver: x.Ver, B: x.B, T: [3]int{te, rl, rc}}
+					if !okAll {
+						recheck3(cur)
 						okAll = true
+					} else if (i*100+te*20+rl*4+rc)%4096 == 0 {
+						evalEnum(c, "v3fields", cur.withText(), checkC06v3, &nviol)
 					}
+					prev3 = cur
 				}
 			}
 		}
@@ -268,8 +311,9 @@ func TestC06(t *testing.T) {
 															f.T = [3]int{ti / 20, (ti / 4) % 5, ti % 4}
 															bind.SetV3Temporal(e.Temporal, f.T)
 															if !obs3(2, e.Score(), e.Severity()) {
-																evalEnum(c, "v3fields", f.withText(), checkC06v3, &nviol)
+																recheck3(f)
 															}
+															prev3 = f
 														}
 													}
 												}
@@ -296,9 +340,12 @@ func TestC06(t *testing.T) {
 			bind.SetV3Base(e.Base, f.Ver, f.B)
 			bind.SetV3Temporal(e.Temporal, f.T)
 			bind.SetV3Env(e, f.E)
-			if !obs3(2, e.Score(), e.Severity()) || k%4096 < uint64(shards) {
+			if !obs3(2, e.Score(), e.Severity()) {
+				recheck3(f)
+			} else if k%4096 < uint64(shards) {
 				evalEnum(c, "v3fields", f.withText(), checkC06v3, &nviol)
 			}
+			prev3 = f
 			if c.rec.SampleCount() < 3 && k%500009 < uint64(shards) {
 				c.rec.Sample(f.withText())
 			}
